@@ -8,7 +8,7 @@ RULE = ("str_run: a minimal preamble, then the role's input streams (all 3 roles
         "and foreign BeginRequest / foreign-id stream records; caller schedules drawn from a Markov generator over feed+parse(None), "
         "feed+parse(Some(cap 0..n)), consume_stream(k), compress, consume_output(k), set_stream(next), followed by a drain phase; buffer sizes "
         "24, 32, 40, 64, 256, 8192; directed: records that must be ignored with content + padding > 65535, and buffers of 65536 / 65544 / 131072 "
-        "bytes filled to the brim in one call while a 65535-byte record is pending. Non-trivial: schedule contains at least one parse into dest and one into the buffer, or junk records, "
+        "bytes filled to the brim in one call while a 65535-byte record is pending. directed: leftover-then-large (the caller leaves part of the stream buffer, then a payload piece of a page and more arrives), contents up to 12000 bytes on 8/16 KiB buffers. Non-trivial: schedule contains at least one parse into dest and one into the buffer, or junk records, "
         "or B <= 40; distinct = distinct case lines.")
 ASSUMPTIONS = ["GetValues name-value pairs fit the buffer (the stream parser has no stuck detection; documented bound)",
                "dest is only passed when stream_buffer is empty (documented precondition; the interpreter skips such ops)"]
@@ -145,8 +145,34 @@ def full_64k_case(rng, variant):
     return "str_run " + " ".join(fmt_arg(x) for x in [[B], [1], wire] + ops), ["stream", "role%d" % role, "full-64k", "mixed-dest"]
 
 
+def leftover_then_large_case(rng):
+    """internal-buffer delivery with a caller that takes only PART of what is buffered (documented: further stream data is appended),
+    followed by a payload piece of a page and more in one call, the large piece in one record or split over records, buffers of
+    8 KiB and more.  The preamble and a first Stdin record fill the buffer exactly (the request parser reads greedily), so that the
+    second record arrives in a later call"""
+    rid = rng.choice([1, 7])
+    role = rng.choice([RESPONDER, FILTER])
+    B = rng.choice([8192, 8192, 16384])
+    pre = flat(minimal_preamble(rid, role))
+    first = [rng.randrange(256) for _ in range(B - len(pre) - 8)]
+    large = [rng.randrange(256) for _ in range(rng.choice([4095, 4096, 4097, 5000, B - 600]))]
+    rest = record(STDIN, rid, large, rng.choice([0, 3])) + record(STDIN, rid, [9, 9, 9], 0) + record(STDIN, rid, [], 0)
+    if role == FILTER:
+        rest += record(DATA, rid, [1, 2, 3], 0) + record(DATA, rid, [], 0)
+    keep = rng.choice([1, 60, 100, 3000])                  # bytes of the first record the caller leaves in the stream buffer
+    ops = [[0, 0], [2, len(first) - keep], [3]] + rng.choice([[[0, 10 ** 6]], [[0, 8], [0, 10 ** 6]], [[0, 10 ** 6], [0, 0]]])
+    for _ in range(6):
+        ops += [[0, 10 ** 6], [2, 10 ** 6], [4, 10 ** 6], [3]]
+    return "str_run " + " ".join(fmt_arg(x) for x in [[B], [1], pre + record(STDIN, rid, first, 0) + rest] + ops), ["stream", "role%d" % role, "leftover-then-large", "junk"]
+
+
 def gen_cases(rng, tier):
     yield from _gen_cases_base(rng, tier)
+    for _ in range(16 if tier == "quick" else 600):
+        yield leftover_then_large_case(rng)
+    # medium-size contents (pieces of several KiB) under the random operation mix
+    for _ in range(20 if tier == "quick" else 2500):
+        yield one(rng, B=rng.choice([8192, 16384]), maxlen=12000)
     for variant in (0, 1, 2):
         for _ in range(1 if tier == "quick" else 6):
             yield full_64k_case(rng, variant)
@@ -160,7 +186,7 @@ def nontrivial(line, tags):
 
 
 def min_classes(tier):
-    return {"mixed-dest": 300, "small-buffer": 200, "zero-dest": 100, "set-stream": 100, "big": 2, "huge-ignored": 3, "full-64k": 3, "role1": 100, "role2": 100, "role3": 100}
+    return {"leftover-then-large": 16, "mixed-dest": 300, "small-buffer": 200, "zero-dest": 100, "set-stream": 100, "big": 2, "huge-ignored": 3, "full-64k": 3, "role1": 100, "role2": 100, "role3": 100}
 
 
 def oracle(line, impl_line):
